@@ -207,3 +207,6 @@ def run(ctx):
     r10_4(ctx)
     from .C04 import r4_1
     r4_1(ctx)  # an individually absent resource is never newly allocated: allocation sites require state FREE
+    # an absent resource that is still held by a working task must stay ABSENCE (no progress, no cost, ABSENCE in the log)
+    from .C03 import r3_4
+    r3_4(ctx)
